@@ -18,7 +18,9 @@ MANIFEST = dict(
          "proved is WHICH bytes are handed to WHICH cipher/hash, and the policy functions. crypto/tls enforces the policies (oracle, "
          "observed by the certificate matrix). An observer is passive; with no CA configured the client does not verify the server "
          "(documented frp behaviour) so an active man in the middle is out of scope. The end user's own Authorization header is "
-         "tunnelled payload. OIDC auth is not covered (token method only). kcp/quic transports are not run through the relay.",
+         "tunnelled payload. KNOWN DEVIATION F-C05a (proved as C05_secrets_empty_token_refuted, replayed by the wire driver): with auth.token empty "
+         "(oidc method or no token) and TLS off, the control cipher and the per-proxy cipher are keyed by a value everybody can derive, so "
+         "NewProxy's sk / http_pwd are readable; the secrecy theorem for the public observer is stated for non-empty tokens.",
     technique="Coq proof (induction over histories, reflection over translator tables) + differential correspondence via vm_compute",
     design="4/C05")
 
@@ -32,7 +34,19 @@ def recipe(c: Check):
     c.obligations("C05")
     c.run_driver("sniff", 1, shards=2)
     c.run_driver("policy", 1, shards=2)
-    c.run_driver("wire", q(c.tier, 30, 160), shards=q(c.tier, 4, 8), timeout=1500)
+    stw = c.run_driver("wire", q(c.tier, 32, 160), shards=q(c.tier, 4, 8), timeout=1500)
+    # recorded finding F-C05a (C05_secrets_empty_token_refuted): reproduced by the decrypting observer.  It is reported as
+    # KNOWN-FINDING when KNOWN_FINDINGS.txt lists its key, otherwise as a note; it never counts as a new violation because the
+    # proved statement (C05_secrets_never_clear_public_partial) excludes exactly this input class.
+    known = {k["key"] for k in c.known_findings() if k["property"] == PID}
+    for f in (stw or {}).get("findings", []) or []:
+        if f["key"] in known:
+            f.setdefault("driver", "wire")
+            c.failures.append(f)
+        else:
+            note = "finding %s reproduced: %s [%s]" % (f["key"], f["what"], f["case"])
+            if not any(n.startswith("finding %s reproduced" % f["key"]) for n in c.notes):
+                c.notes.append(note)
     c.run_driver("certs", 1, shards=1)
     cc = c.cov.get("coq_counters", {})
     # monitor on observed traces evaluated in Coq (the Go side reports the same with a replayable description)
@@ -42,7 +56,7 @@ def recipe(c: Check):
                                    case="see cases_%s_*.v in work/C05" % d))
     # sanity: the branches the property names must have been reached, else the run proves nothing
     need = dict(sniff=dict(NSYSTLS=4, NSYSPROTO=1, NFNREJECT=254), policy=dict(NREQUIRE=1, NVERIFY=1),
-                wire=dict(NCLEARPAYLOAD=2, NHIDDENALL=2, NREJECTED=1), certs=dict(NREFUSED=3, NACCEPTED=2))
+                wire=dict(NCLEARPAYLOAD=2, NHIDDENALL=2, NREJECTED=1, NEMPTYTOKEN=2), certs=dict(NREFUSED=3, NACCEPTED=2))
     if c.harness_ok and not any(b["kind"] in ("driver", "correspondence-eval") for b in c.broken):
         for d, ks in need.items():
             for k, v in ks.items():
@@ -55,7 +69,8 @@ def recipe(c: Check):
              "7 cert/key choices x 4 CA choices x force / 3 server names through the real Complete + NewServerTLSConfig / NewClientTLSConfig "
              "on harness-generated PKI files, 6 protocols x 27 option settings through ClientTransportConfig.Complete; wire: per "
              "configuration of the lattice one real frpc (tcp + http + stcp proxy, stcp visitor) against one frps through a recording "
-             "relay, 15 high-entropy markers searched raw/hex/base64 (websocket client frames unmasked), observed set must lie between "
+             "relay, 15 high-entropy markers searched raw/hex/base64 (websocket client frames unmasked; for empty-token configurations also after "
+             "opening the recorded cipher streams with the key derived from the empty string, compared with the model's public observer), observed set must lie between "
              "the model's certainly-visible and possibly-visible sets (they differ only under compression), plus first byte on the wire; "
              "certs: certificate matrix. distinct = distinct case text / configuration; non-trivial = every case (each carries an observation)",
         assumptions=["AES-CFB (golib crypto), TLS (crypto/tls) and md5 hide their input: cryptography, trusted",
